@@ -1107,9 +1107,31 @@ func (fr *Frame) evalCall(x *SCall, ctx *specCtx) SV {
 			}
 		}
 		fail("spec: at(): no loop %s", k.Val)
+	case "before": // before(k, e): the value of e when loop k was entered (inside loop k and after it)
+		if len(x.Args) != 2 {
+			fail("spec: before(k, e)")
+		}
+		k, ok := x.Args[0].(*SInt)
+		if !ok {
+			fail("spec: before(k, e): k must be a loop number")
+		}
+		for _, li := range ctx.fr.loops {
+			if fmt.Sprint(li.ord) == k.Val {
+				if li.preSt == nil {
+					fail("spec: before(%s, ...) used before loop %s is entered", k.Val, k.Val)
+				}
+				n := *ctx
+				n.st = li.preSt
+				return fr.evalSpec(x.Args[1], &n)
+			}
+		}
+		fail("spec: before(): no loop %s", k.Val)
 	case "wraps": // wraps(err, target): errors.Is(err, target) by the %w chain
 		g.needWraps = true
 		return SV{Term: "(err_wraps " + arg(0).Term + " " + arg(1).Term + ")", K: svBool}
+	case "backing": // backing(s): the identity of the backing array of slice s (0 for a nil slice)
+		a := arg(0)
+		return SV{Term: refTermOf(a), K: svMath}
 	case "preexisting": // preexisting(p): the object p points to existed when the function was entered (or p is nil)
 		a := arg(0)
 		return SV{Term: "(<= " + refTermOf(a) + " " + g.entry.heap.get(g, g.topKey()) + ")", K: svBool}
